@@ -113,4 +113,336 @@ Proof.
   intros C M. cbn. rewrite M, C. eexists. split; [reflexivity|]. cbn. repeat split; assumption.
 Qed.
 
+(* ---- every tagged call gets at most one message, exactly one once it left _tag_map unreleased ---- *)
+Definition quiet (e : list ev) : Prop := forall c, nposts c e = O /\ acc c e = false /\ rel c e = false.
+
+Inductive summary (s s' : st) (e : list ev) : Prop :=
+| SQuiet : quiet e -> seen s' = seen s -> tagmap s' = tagmap s -> summary s s' e
+| SReply c : In c (tagmap s) -> tagmap s' = remove_z c (tagmap s) -> seen s' = seen s ->
+    (forall c', nposts c' e = if c =? c' then 1%nat else O) -> (forall c', acc c' e = false /\ rel c' e = false) -> summary s s' e
+| SRelease c : In c (tagmap s) -> tagmap s' = remove_z c (tagmap s) -> seen s' = seen s ->
+    (forall c', nposts c' e = O /\ acc c' e = false /\ rel c' e = (c =? c')) -> summary s s' e
+| SShutdown : tagmap s' = [] -> seen s' = seen s ->
+    (forall c', nposts c' e = if mem_z c' (tagmap s) then 1%nat else O) -> (forall c', acc c' e = false /\ rel c' e = false) ->
+    summary s s' e
+| SAccept c : mem_z c (seen s) = false -> tagmap s' = tagmap s ++ [c] -> seen s' = c :: seen s -> e = [Accepted c] ->
+    summary s s' e
+| SReject c : mem_z c (seen s) = false -> tagmap s' = tagmap s -> seen s' = c :: seen s -> e = [Post c KNotOpen] ->
+    summary s s' e.
+
+Lemma quiet_nil : quiet [].
+Proof. intros c. repeat split. Qed.
+
+Lemma shutdown_summary f s s1 e1 :
+  Inv s -> shutdown f s = (s1, e1) -> forall s', tagmap s' = tagmap s1 -> seen s' = seen s1 -> summary s s' e1.
+Proof.
+  intros I Sh s' T Sn. destruct (cst s) eqn:C.
+  1,2: assert (C' : cst s <> Closed) by congruence;
+    destruct (shutdown_spec f s s1 e1 C' (m_nodup _ I) Sh) as (P1 & P2 & P3 & P4 & P5 & P6 & P7 & P8 & P9 & P10 & P11 & P12 & P13);
+    apply SShutdown; try congruence; assumption.
+  rewrite (shutdown_closed f s C) in Sh. inversion Sh; subst. destruct (ar_fail_same s) as (A1 & A2 & A3 & A4 & _).
+  apply SQuiet; [apply quiet_nil | congruence | congruence].
+Qed.
+
+Lemma step_summary s l s' e : Inv s -> step s l = Some (s', e) -> summary s s' e.
+Proof.
+  intros I H.
+  destruct (shutdown_label s l) as [f|] eqn:L.
+  - destruct (shutdown_step s l f L) as (s2 & e2 & St & He & E1 & E2 & E3 & E4 & E5 & E6 & E7).
+    rewrite H in St. inversion St; subst s2 e2. destruct (shutdown f s) as [s1 e1] eqn:Sh. cbn in *. subst e.
+    eapply shutdown_summary; eassumption.
+  - pose proof (m_idle _ I) as I5. pose proof (m_nodup _ I) as I1. clear I.
+    destruct s as [nw ch op tm sn ex q sd rc pd pa dl pls lw lpg]; cbn in *.
+    destruct l; cbn in H, L; unfold send_ping, tick_ok in H; cbn in H; brk; try discriminate;
+    try (apply SQuiet; [intros c0; cbn; auto | reflexivity | cbn; try reflexivity; destruct I5 as (_ & T & _); auto; congruence]; fail).
+    + (* MReq refused while idle *) eapply SReject; cbn; try reflexivity; assumption.
+    + (* MReq accepted *) eapply SAccept; cbn; try reflexivity; assumption.
+    + (* MReq refused when closed *) eapply SReject; cbn; try reflexivity; assumption.
+    + (* MTake drops an expired frame *)
+      eapply SRelease with (c := c); cbn; try reflexivity.
+      * apply mem_z_true. assumption.
+      * intros c'. rewrite orb_false_r. repeat split.
+    + (* MProcess delivers a reply *)
+      eapply SReply with (c := c); cbn; try reflexivity.
+      * apply mem_z_true. assumption.
+      * intros c'. rewrite Nat.add_0_r. reflexivity.
+      * intros c'. split; reflexivity.
+Qed.
+
+Record G (s : st) (evs : list ev) : Prop := {
+  g_fresh : forall c, mem_z c (seen s) = false -> nposts c evs = O /\ acc c evs = false /\ rel c evs = false;
+  g_map : forall c, In c (tagmap s) -> nposts c evs = O /\ acc c evs = true /\ rel c evs = false;
+  g_done : forall c, mem_z c (seen s) = true -> ~ In c (tagmap s) ->
+     (acc c evs = true /\ ((nposts c evs = 1%nat /\ rel c evs = false) \/ (nposts c evs = O /\ rel c evs = true))) \/
+     (acc c evs = false /\ nposts c evs = 1%nat /\ rel c evs = false);
+}.
+
+Lemma G_init t0 : G (init t0) [].
+Proof. constructor; cbn; intros; try discriminate; try tauto; repeat split. Qed.
+
+Lemma mem_cons c x l : mem_z c (x :: l) = (c =? x) || mem_z c l.
+Proof. reflexivity. Qed.
+
+Lemma step_G s l s' e evs : Inv s -> G s evs -> step s l = Some (s', e) -> G s' (evs ++ e).
+Proof.
+  intros I [Gf Gm Gd] H. pose proof (m_map_seen _ I) as Ms. pose proof (m_nodup _ I) as Nd.
+  apply step_summary in H; [|assumption].
+  destruct H as [Q Hs Ht | c Hin Ht Hs Hn Ha | c Hin Ht Hs Hr | Ht Hs Hn Ha | c Hc Ht Hs He | c Hc Ht Hs He].
+  - constructor; intros c0; rewrite ?Hs, ?Ht; intros; rewrite nposts_app, acc_app, rel_app;
+    destruct (Q c0) as (Q1 & Q2 & Q3); rewrite Q1, Q2, Q3, ?Nat.add_0_r, ?orb_false_r; auto.
+  - (* reply *)
+    destruct (Gm _ Hin) as (G1 & G2 & G3). pose proof (Ms _ Hin) as Hm.
+    constructor; intros c0; rewrite ?Hs, ?Ht; intros; rewrite nposts_app, acc_app, rel_app, Hn;
+    destruct (Ha c0) as (A1 & A2); rewrite A1, A2, ?orb_false_r.
+    + destruct (Z.eqb_spec c c0) as [E|E]; [subst; congruence|]. rewrite Nat.add_0_r. apply Gf. assumption.
+    + apply remove_z_in in H as [H1 H2]. rewrite (proj2 (Z.eqb_neq c c0)) by congruence. rewrite Nat.add_0_r. apply Gm. assumption.
+    + destruct (Z.eqb_spec c c0) as [E|E].
+      * subst. left. rewrite G1, G2, G3. split; [reflexivity | left; split; reflexivity].
+      * rewrite Nat.add_0_r. apply Gd; [assumption|]. intros X. apply H0. apply remove_z_in. split; [assumption | congruence].
+  - (* released *)
+    destruct (Gm _ Hin) as (G1 & G2 & G3). pose proof (Ms _ Hin) as Hm.
+    constructor; intros c0; rewrite ?Hs, ?Ht; intros; rewrite nposts_app, acc_app, rel_app;
+    destruct (Hr c0) as (R1 & R2 & R3); rewrite R1, R2, R3, ?Nat.add_0_r, ?orb_false_r.
+    + destruct (Z.eqb_spec c c0) as [E|E]; [subst; congruence|]. rewrite orb_false_r. apply Gf. assumption.
+    + apply remove_z_in in H as [H1 H2]. rewrite (proj2 (Z.eqb_neq c c0)) by congruence. rewrite orb_false_r. apply Gm. assumption.
+    + destruct (Z.eqb_spec c c0) as [E|E].
+      * subst. left. rewrite G1, G2, orb_true_r. split; [reflexivity | right; split; reflexivity].
+      * rewrite orb_false_r. apply Gd; [assumption|]. intros X. apply H0. apply remove_z_in. split; [assumption | congruence].
+  - (* shutdown *)
+    constructor; intros c0; rewrite ?Hs, ?Ht; intros; rewrite nposts_app, acc_app, rel_app, Hn;
+    destruct (Ha c0) as (A1 & A2); rewrite A1, A2, ?orb_false_r.
+    + destruct (mem_z c0 (tagmap s)) eqn:M.
+      * apply mem_z_true in M. apply Ms in M. congruence.
+      * rewrite Nat.add_0_r. apply Gf. assumption.
+    + destruct H.
+    + destruct (mem_z c0 (tagmap s)) eqn:M.
+      * apply mem_z_true in M. destruct (Gm _ M) as (G1 & G2 & G3). left. rewrite G1, G2, G3.
+        split; [reflexivity | left; split; reflexivity].
+      * rewrite Nat.add_0_r. apply Gd; [assumption|]. apply mem_z_false. assumption.
+  - (* accepted *)
+    subst e. destruct (Gf _ Hc) as (F1 & F2 & F3).
+    assert (Hn : ~ In c (tagmap s)) by (intros X; apply Ms in X; congruence).
+    constructor; intros c0; rewrite ?Hs, ?Ht, ?mem_cons; intros; rewrite nposts_app, acc_app, rel_app; cbn;
+    rewrite ?Nat.add_0_r, ?orb_false_r.
+    + apply orb_false_iff in H as [H1 H2]. rewrite Z.eqb_sym, H1, orb_false_r. apply Gf. assumption.
+    + apply in_app_or in H. destruct H as [H|[H|[]]].
+      * destruct (Gm _ H) as (G1 & G2 & G3). rewrite G1, G2, G3. repeat split.
+      * subst. rewrite Z.eqb_refl, orb_true_r. repeat split; assumption.
+    + destruct (Z.eqb_spec c0 c) as [E|E].
+      * subst. exfalso. apply H0. apply in_or_app. right. left. reflexivity.
+      * cbn in H. rewrite (proj2 (Z.eqb_neq c c0)) by congruence. rewrite orb_false_r.
+        apply Gd; [assumption|]. intros X. apply H0. apply in_or_app. left. assumption.
+  - (* refused: Sink not open *)
+    subst e. destruct (Gf _ Hc) as (F1 & F2 & F3).
+    assert (Hn : ~ In c (tagmap s)) by (intros X; apply Ms in X; congruence).
+    constructor; intros c0; rewrite ?Hs, ?Ht, ?mem_cons; intros; rewrite nposts_app, acc_app, rel_app; cbn;
+    rewrite ?Nat.add_0_r, ?orb_false_r.
+    + apply orb_false_iff in H as [H1 H2]. rewrite Z.eqb_sym, H1, Nat.add_0_r. apply Gf. assumption.
+    + destruct (Z.eqb_spec c c0) as [E|E]; [subst; contradiction|]. rewrite Nat.add_0_r. apply Gm. assumption.
+    + destruct (Z.eqb_spec c0 c) as [E|E].
+      * subst. rewrite Z.eqb_refl. right. rewrite F1, F2, F3. repeat split.
+      * cbn in H. rewrite (proj2 (Z.eqb_neq c c0)) by congruence. rewrite Nat.add_0_r. apply Gd; assumption.
+Qed.
+
+Lemma run_G ls : forall s s' e evs, Inv s -> G s evs -> run s ls = Some (s', e) -> G s' (evs ++ e) /\ Inv s'.
+Proof.
+  induction ls as [|l ls IH]; intros s s' e evs I Gs H; cbn in H.
+  - inversion H; subst. rewrite app_nil_r. split; assumption.
+  - destruct (step s l) as [[s1 e1]|] eqn:S; [|discriminate].
+    destruct (run s1 ls) as [[s2 e2]|] eqn:R; [|discriminate]. inversion H; subst.
+    rewrite app_assoc. eapply IH; [| |exact R].
+    + eapply step_inv; eassumption.
+    + eapply step_G; eassumption.
+Qed.
+
+Lemma mux_once t0 ls s e c :
+  run (init t0) ls = Some (s, e) ->
+  (nposts c e <= 1)%nat /\
+  (In c (tagmap s) -> nposts c e = O /\ acc c e = true) /\
+  (acc c e = true -> ~ In c (tagmap s) -> rel c e = false -> nposts c e = 1%nat) /\
+  (cst s = Closed -> tagmap s = []).
+Proof.
+  intros H. destruct (run_G ls (init t0) s e [] (inv_init t0) (G_init t0) H) as [[Gf Gm Gd] I]. cbn in *.
+  split; [|split; [|split]].
+  - destruct (mem_z c (seen s)) eqn:M.
+    + destruct (in_dec Z.eq_dec c (tagmap s)) as [X|X].
+      * destruct (Gm _ X) as (Y & _). lia.
+      * destruct (Gd c M X) as [(_ & [D|D])|D]; lia.
+    + destruct (Gf c M) as (X & _). lia.
+  - intros X. destruct (Gm _ X) as (Y1 & Y2 & _). split; assumption.
+  - intros A N R. destruct (mem_z c (seen s)) eqn:M.
+    + destruct (Gd c M N) as [(_ & [D|D])|D]; [tauto | | ]; destruct D; congruence.
+    + destruct (Gf c M) as (_ & X & _). congruence.
+  - intros C. apply (m_closed _ I C).
+Qed.
+
+(* ---- pings ---- *)
+Definition ER (s : st) (evs : list ev) : Prop := forall d, ping_dl s = Some d -> In (PingSent (lastping s)) evs.
+
+Lemma step_ER s l s' e evs : Inv s -> ER s evs -> step s l = Some (s', e) -> ER s' (evs ++ e).
+Proof.
+  intros I E H. pose proof (m_dl _ I) as I9. pose proof (m_pre _ I) as I8. clear I. unfold ER in *.
+  destruct s as [nw ch op tm sn ex q sd rc pd pa dl pls lw lpg]; cbn in *.
+  destruct l; cbn in H; unfold shutdown, send_ping, ar_fail, wake_fail, tick_ok in H; cbn in H; brk; cbn; intros d0 Hd;
+  apply in_or_app;
+  try (left; apply (E d0); assumption);
+  try (right; left; reflexivity);
+  try (right; apply in_or_app; right; left; reflexivity);
+  try discriminate;
+  try (destruct pa; [discriminate | destruct (I9 _ Hd) as (X & _); discriminate]).
+Qed.
+
+Lemma run_ER ls : forall s s' e evs, Inv s -> ER s evs -> run s ls = Some (s', e) -> ER s' (evs ++ e) /\ Inv s'.
+Proof.
+  induction ls as [|l ls IH]; intros s s' e evs I Es H; cbn in H.
+  - inversion H; subst. rewrite app_nil_r. split; assumption.
+  - destruct (step s l) as [[s1 e1]|] eqn:S; [|discriminate].
+    destruct (run s1 ls) as [[s2 e2]|] eqn:R; [|discriminate]. inversion H; subst.
+    rewrite app_assoc. eapply IH; [| |exact R].
+    + eapply step_inv; eassumption.
+    + eapply step_ER; eassumption.
+Qed.
+
+Lemma ER_init t0 : ER (init t0) [].
+Proof. intros d H. discriminate. Qed.
+
+Lemma tick_bound s t s' e : step s (MTick t) = Some (s', e) ->
+  now s <= t /\ (forall d, ping_dl s = Some d -> t <= d) /\ (forall p, pl s = PSleep p -> t <= p).
+Proof.
+  cbn. unfold tick_ok. destruct (now s <=? t) eqn:A; [|discriminate]. cbn.
+  destruct (ping_dl s) as [d|]; destruct (pl s) as [| |p]; cbn;
+  repeat match goal with |- context [?a <=? ?b] => destruct (Z.leb_spec a b); cbn end; try discriminate;
+  intros _; apply Z.leb_le in A; repeat split; try assumption; intros x X; inversion X; subst; assumption.
+Qed.
+
+Lemma ping_timeout_step s d :
+  Inv s -> ping_dl s = Some d ->
+  d = lastping s + ping_timeout /\ now s <= d /\ par s = true /\
+  (now s < d -> step s MPingTimeout = None) /\
+  (now s = d -> exists s' e, step s MPingTimeout = Some (s', e) /\ cst s' = Closed /\
+     (cst s <> Closed -> nfaults e = 1 /\ In (ShutdownAt d) e /\ tagmap s' = [] /\ queue s' = [] /\
+                         forall c, nposts c e = if mem_z c (tagmap s) then 1%nat else O)).
+Proof.
+  intros I D. destruct (m_dl _ I _ D) as (P & E & N). repeat split; try assumption.
+  - intros L. cbn. rewrite D. rewrite (proj2 (Z.eqb_neq d (now s))) by lia. reflexivity.
+  - intros E2. assert (L : shutdown_label s MPingTimeout = Some true).
+    { cbn. rewrite D, P. subst d. rewrite E2 at 1. rewrite Z.eqb_refl. reflexivity. }
+    destruct (cst s) eqn:C.
+    1,2: assert (C' : cst s <> Closed) by congruence;
+      destruct (fail_all_once s MPingTimeout true C' (m_nodup _ I) L) as (s' & e & St & F1 & F2 & F3 & F4 & F5 & F6 & F7 & _);
+      exists s', e; split; [assumption|]; split; [assumption|]; intros _; rewrite <- E2; repeat split; assumption.
+    destruct (shutdown_again s MPingTimeout true C L) as (s' & St & C2 & _).
+    exists s', []. split; [assumption|]. split; [assumption|]. intros X. congruence.
+Qed.
+
+Lemma ping_dl_persists s l s' e d :
+  Inv s -> step s l = Some (s', e) -> ping_dl s = Some d -> ping_dl s' = Some d \/ In Pong e \/ cst s' = Closed.
+Proof.
+  intros I H D. pose proof (m_pre _ I) as I8. pose proof (m_dl _ I) as I9. clear I.
+  destruct s as [nw ch op tm sn ex q sd rc pd pa dl pls lw lpg]; cbn in *. subst dl.
+  destruct l; cbn in H; unfold shutdown, send_ping, ar_fail, wake_fail, tick_ok in H; cbn in H; brk; cbn;
+  try (left; reflexivity); try (right; left; left; reflexivity); try (right; right; reflexivity);
+  try (destruct I8 as (X & _); [tauto | discriminate]).
+Qed.
+
+Lemma ping_wake_step s d s' e :
+  Inv s -> step s (MPingWake d) = Some (s', e) ->
+  e = [PingSent (now s)] /\ 30 * tps <= now s - lastw s <= 40 * tps /\ lastw s' = now s /\ lastping s' = now s /\
+  ping_dl s' = Some (now s + ping_timeout) /\ queue s' = queue s ++ [IPing] /\
+  exists p, pl s' = PSleep p /\ now s + 30 * tps <= p <= now s + 40 * tps.
+Proof.
+  intros I H. pose proof (m_sleep _ I) as I11. clear I.
+  destruct s as [nw ch op tm sn ex q sd rc pd pa dl pls lw lpg]; cbn -[Z.mul Z.add] in *.
+  destruct pls as [| |p]; try discriminate. destruct dl; try discriminate.
+  destruct ((p =? nw) && (30 <=? d) && (d <=? 40)) eqn:B; [|discriminate].
+  unfold send_ping in H. cbn -[Z.mul Z.add] in H. inversion H; subst; clear H. cbn -[Z.mul Z.add].
+  apply andb_true_iff in B as [Hb Hd2]. apply andb_true_iff in Hb as [Hp Hd1].
+  apply Z.eqb_eq in Hp. apply Z.leb_le in Hd1, Hd2. subst. destruct (I11 _ eq_refl) as (S1 & S2 & S3 & S4).
+  unfold ping_timeout, tps in *.
+  split; [reflexivity|]. split; [lia|]. split; [reflexivity|]. split; [reflexivity|]. split; [reflexivity|].
+  split; [reflexivity|]. eexists. split; [reflexivity|]. destruct d; lia.
+Qed.
+
+Lemma ping_wake_enabled s p d :
+  Inv s -> pl s = PSleep p -> now s = p -> 30 <= d <= 40 -> step s (MPingWake d) <> None.
+Proof.
+  intros I P N D. pose proof (m_sleep _ I _ P) as (S1 & S2 & S3 & S4). cbn. rewrite P.
+  destruct (ping_dl s) as [x|] eqn:X.
+  - destruct (m_dl _ I _ X) as (_ & E & L). unfold ping_timeout, tps in *. lia.
+  - subst p. rewrite Z.eqb_refl. destruct (Z.leb_spec 30 d); [|lia]. destruct (Z.leb_spec d 40); [|lia]. cbn.
+    unfold send_ping. discriminate.
+Qed.
+
+(* ---- reported open => usable, for runs in which _OpenImpl does not complete after a shutdown ---- *)
+Definition norace (s : st) (l : label) : bool :=
+  match l, opn s, cst s with
+  | MOResume, Some (OWoken true), Closed => false
+  | _, _, _ => true
+  end.
+
+Fixpoint run_nr (s : st) (ls : list label) : option (st * list ev) :=
+  match ls with
+  | [] => Some (s, [])
+  | l :: r =>
+      if norace s l then
+        match step s l with
+        | Some (s1, e1) => match run_nr s1 r with Some (s2, e2) => Some (s2, e1 ++ e2) | None => None end
+        | None => None
+        end
+      else None
+  end.
+
+Record Alive (s : st) : Prop := {
+  a_wait : cst s <> Closed -> (opn s = Some OPingWait \/ exists b, opn s = Some (OWoken b)) -> sndl s <> SDead /\ rcv s <> RDead;
+  a_open : cst s = Open -> sndl s <> SDead /\ rcv s <> RDead;
+}.
+
+Lemma alive_init t0 : Alive (init t0).
+Proof. constructor; cbn; intros; try discriminate. destruct H0 as [X|(b & X)]; discriminate. Qed.
+
+Lemma step_alive s l s' e : Alive s -> norace s l = true -> step s l = Some (s', e) -> Alive s'.
+Proof.
+  intros [A1 A2] N H.
+  destruct s as [nw ch op tm sn ex q sd rc pd pa dl pls lw lpg]; cbn in *.
+  destruct l; cbn in H; unfold shutdown, send_ping, ar_fail, wake_fail, tick_ok in H; cbn in H; brk;
+  constructor; cbn; intros; unfold norace in *; cbn in *;
+  repeat match goal with
+  | H : _ \/ _ |- _ => destruct H
+  | H : exists _, _ |- _ => destruct H
+  end; try discriminate; try congruence;
+  try (split; discriminate);
+  try (destruct A2 as [X Y]; [congruence|]; split; congruence);
+  try (destruct A1 as [X Y];
+       [congruence | first [left; congruence | right; eexists; eassumption | right; eexists; reflexivity] |];
+       split; congruence).
+  destruct ch; try discriminate; (apply A1; [congruence | right; eexists; reflexivity]).
+Qed.
+
+Lemma run_nr_inv ls : forall s s' e, Inv s -> Alive s -> run_nr s ls = Some (s', e) -> Inv s' /\ Alive s' /\ run s ls = Some (s', e).
+Proof.
+  induction ls as [|l ls IH]; intros s s' e I A H; cbn in H.
+  - inversion H; subst. split; [assumption | split; [assumption | reflexivity]].
+  - destruct (norace s l) eqn:N; [|discriminate]. destruct (step s l) as [[s1 e1]|] eqn:S; [|discriminate].
+    destruct (run_nr s1 ls) as [[s2 e2]|] eqn:R; [|discriminate]. inversion H; subst.
+    destruct (IH _ _ _ (step_inv _ _ _ _ I S) (step_alive _ _ _ _ A N S) R) as (I2 & A2 & R2).
+    split; [assumption | split; [assumption|]]. cbn. rewrite S, R2. reflexivity.
+Qed.
+
+Lemma usable s :
+  Inv s -> Alive s -> cst s = Open ->
+  sndl s <> SDead /\ rcv s <> RDead /\
+  (sndl s = SIdle -> queue s = [] -> forall c, mem_z c (seen s) = false ->
+     exists s1 s2 s3, step s (MReq c) = Some (s1, [Accepted c]) /\ step s1 MTake = Some (s2, []) /\
+                      step s2 (MWrote IoOk) = Some (s3, [Wire (IFrame c)]) /\ In c (tagmap s3)).
+Proof.
+  intros I A C. destruct (a_open _ A C) as (A1 & A2). split; [assumption|]. split; [assumption|].
+  intros Sd Q c M. pose proof (m_exp_seen _ I c) as Ex.
+  assert (Ex' : mem_z c (expired s) = false) by (destruct (mem_z c (expired s)); [rewrite Ex in M by reflexivity; discriminate | reflexivity]).
+  destruct s as [nw ch op tm sn ex q sd rc pd pa dl pls lw lpg]; cbn in *. subst ch sd q.
+  eexists. eexists. eexists.
+  split; [cbn; rewrite M; reflexivity|].
+  split; [cbn; rewrite Ex'; reflexivity|].
+  split; [reflexivity|]. cbn. apply in_or_app. right. left. reflexivity.
+Qed.
+
 End MuxP2.
